@@ -33,6 +33,8 @@ SHAPES = {
     "dc-both": ([], True, [], True, "max-bundle"),
     "a+dc-bundle": (["audio"], True, ["audio", "video"], False, "max-bundle"),
     "video-both": (["video"], False, ["video"], False, "balanced"),
+    # the data channel is created BEFORE the first track: with max-bundle every m-line then shares the SCTP transport's DTLS
+    "dc-first-bundle": (["audio"], True, ["audio"], False, "max-bundle", "dc-first"),
 }
 BUNDLE = {"balanced": RTCBundlePolicy.BALANCED, "max-compat": RTCBundlePolicy.MAX_COMPAT, "max-bundle": RTCBundlePolicy.MAX_BUNDLE}
 
@@ -41,7 +43,8 @@ class Life:
     """One pair of peer connections with everything the oracle needs to observe."""
 
     def __init__(self, shape):
-        omedia, odc, amedia, adc, bundle = SHAPES[shape]
+        omedia, odc, amedia, adc, bundle = SHAPES[shape][:5]
+        dc_first = len(SHAPES[shape]) > 5
         random.seed(12345)
         self.w = PcWorld(real_decoder_thread=True)
         self.loop = self.w.loop
@@ -56,11 +59,13 @@ class Life:
             self._spy(self.pc[side], side, "pc")
             self.pc[side].on("datachannel", lambda ch, side=side: self._channel(side, ch))
             self.pc[side].on("track", lambda t, side=side: self._track(side, t))
+        if odc and dc_first:
+            self._channel("A", self.pc["A"].createDataChannel("a-chat"))
         for kind in omedia:
             self.pc["A"].addTrack(PendingTrack(kind))
         for kind in amedia:
             self.pc["B"].addTrack(PendingTrack(kind))
-        if odc:
+        if odc and not dc_first:
             self._channel("A", self.pc["A"].createDataChannel("a-chat"))
         if adc:
             self._channel("B", self.pc["B"].createDataChannel("b-chat"))
@@ -111,6 +116,10 @@ class Life:
                 if ch.readyState == "open":
                     ch.send(b"x" * 3000)
             await asyncio.sleep(0.5)
+            # the application closes a channel itself: while the stream reset is in progress the channel is "closing"
+            for ch in self.channels["A"][:1]:
+                ch.close()
+            await asyncio.sleep(0.3)
         except (InvalidStateError, ConnectionError):
             pass                    # a negotiation call that lost the race against close()
         except Exception as e:      # other failures of the racing call are recorded, the oracle is about close()
@@ -308,7 +317,7 @@ def task(args):
 
 
 def run(tier, seed):
-    shapes = list(SHAPES) if tier == "thorough" else ["av+dc", "dc-only", "audio-only", "a+dc-bundle"]
+    shapes = list(SHAPES) if tier == "thorough" else ["av+dc", "dc-only", "audio-only", "a+dc-bundle", "dc-first-bundle"]
     tasks = []
     lengths = {}
     for shape in shapes:
@@ -324,7 +333,7 @@ def run(tier, seed):
     return result(
         PID, total,
         rule="for each connection shape (%s) a scripted life (create tracks/data channels, offer/answer, connect with real DTLS and "
-             "SCTP over fake ICE, data messages, RTCP timers) is stepped one event-loop callback at a time; for EVERY cut index 0..N "
+             "SCTP over fake ICE, data messages, RTCP timers, the application closing one channel itself) is stepped one event-loop callback at a time; for EVERY cut index 0..N "
              "(N = %s callbacks) and every closer in {A, B, both at once, A twice concurrently, A after its peer vanished} the run is "
              "replayed to the cut, close() is started and the default policy continues; oracle: close() completes within 30 virtual "
              "seconds, a second close() is a no-op, signaling/ICE/connection state closed, every data channel closed, received tracks "
